@@ -508,3 +508,11 @@ mod test {
         }
     }
 }
+
+#[cfg(feature = "verif-hooks")]
+impl BinaryOperator {
+    /// Read-only access to the private precedence level (verification harness only).
+    pub fn verif_precedence(&self) -> u8 {
+        self.get_precedence()
+    }
+}
